@@ -1034,9 +1034,12 @@ def bs_european_binary_gamma(
     spot = s.exp() * strike
 
     d2_tensor = d2(s, t, v)
-    w = volatility * time_to_maturity.square()
+    w = v * t.sqrt()
 
-    gamma = -npdf(d2_tensor).div(w * spot.square()) * (1 + d2_tensor.div(w))
+    # gamma = -npdf(d2) * d1 / (w^2 * spot^2) with d1 = d2 + w
+    gamma = -_div_0by0(npdf(d2_tensor), w * spot.square()) - _div_0by0(
+        _x_npdf(d2_tensor), w.square() * spot.square()
+    )
 
     gamma = -gamma if not call else gamma  # put-call parity
 
